@@ -1346,7 +1346,8 @@ class Frame:
         lo_r = k(lo)
         if lo_r.symbols() == {"None"}:
             lo_r = Rat.const(0)          # x[:b] is x[0:b]
-        return anf.opaque("slice", arr, lo_r, k(hi), array=True)
+        hi_r = k(hi)
+        return anf.opaque("slice", arr, lo_r, hi_r, array=True)
 
     # -- calls ---------------------------------------------------------------
     def call(self, e: ast.Call, env, guard: G, stmt):
